@@ -6,12 +6,12 @@ open AMap
 set_option linter.unusedSimpArgs false
 set_option linter.unusedVariables false
 
-theorem sameStaking_accounts (L : Ledger) (acc : NMap Addr) : SameStaking L { L with accounts := acc } :=
+theorem sameStaking_accounts (L : Ledger) (acc : NMap Addr) : SameStaking L { L with accounts := acc, vesting := vs } :=
   ⟨rfl, rfl, rfl, rfl, rfl, rfl, rfl, ⟨rfl, rfl, rfl, rfl⟩⟩
 theorem sameStaking_accountAdd {L L' : Ledger} {a : Addr} {x : Nat} (h : accountAdd L a x = .ok L') : SameStaking L L' := by
-  obtain ⟨acc, rfl, _⟩ := accountAdd_ok h; exact sameStaking_accounts L acc
+  obtain ⟨acc, vs, rfl, _⟩ := accountAdd_ok h; exact sameStaking_accounts L acc
 theorem sameStaking_accountSub {L L' : Ledger} {a : Addr} {x : Nat} (h : accountSub L a x = .ok L') : SameStaking L L' := by
-  obtain ⟨acc, rfl, _⟩ := accountSub_ok h; exact sameStaking_accounts L acc
+  obtain ⟨acc, vs, rfl, _⟩ := accountSub_ok h; exact sameStaking_accounts L acc
 theorem sameStaking_poolSub {L L' : Ledger} {a x : Nat} (h : poolSub L a x = .ok L') : SameStaking L L' := by
   obtain ⟨p, rfl, _⟩ := poolSub_ok h; exact ⟨rfl, rfl, rfl, rfl, rfl, rfl, rfl, ⟨rfl, rfl, rfl, rfl⟩⟩
 theorem sameStaking_poolAdd (L : Ledger) (id x : Nat) : SameStaking L (poolAdd L id x) :=
@@ -23,6 +23,25 @@ theorem sameStaking_deductFees {L L' : Ledger} {a : Addr} {fee : Nat} (h : deduc
   obtain rfl := Except.ok.inj h2
   exact (sameStaking_accountSub h1).trans (sameStaking_poolAdd _ _ _)
 
+theorem sameStaking_accountAddWithVesting {L L' : Ledger} {dst : Addr} {x st cl en : Nat}
+    (h : accountAddWithVesting L dst x st cl en = .ok L') : SameStaking L L' := by
+  obtain ⟨acc, vs, rfl, _⟩ := accountAddWithVesting_ok h
+  exact ⟨rfl, rfl, rfl, rfl, rfl, rfl, rfl, ⟨rfl, rfl, rfl, rfl⟩⟩
+
+theorem sameStaking_faucetTopUp {L L1 : Ledger} {sender : Addr} {r : Nat} (h : faucetTopUp L sender r = .ok L1) : SameStaking L L1 := by
+  unfold faucetTopUp at h
+  split at h
+  · obtain rfl := Except.ok.inj h; exact SameStaking.refl L
+  · split at h
+    · obtain rfl := Except.ok.inj h; exact SameStaking.refl L
+    · split at h
+      · obtain rfl := Except.ok.inj h; exact SameStaking.refl L
+      · unfold mintToAccount at h
+        split at h
+        · obtain rfl := Except.ok.inj h; exact SameStaking.refl L
+        · have s1 : SameStaking L (addToTotal L (r - accSpendable L sender)) := ⟨rfl, rfl, rfl, rfl, rfl, rfl, rfl, ⟨rfl, rfl, rfl, rfl⟩⟩
+          exact s1.trans (sameStaking_accountAdd h)
+
 theorem sameStaking_txFaucet {L L1 : Ledger} {sender : Addr} {fee : Nat} {msg : Msg} (h : txFaucet L sender fee msg = .ok L1) :
     SameStaking L L1 := by
   cases msg with
@@ -30,18 +49,12 @@ theorem sameStaking_txFaucet {L L1 : Ledger} {sender : Addr} {fee : Nat} {msg : 
     simp only [txFaucet] at h
     split at h
     · exact absurd h (by intro h; cases h)
-    · unfold faucetTopUp at h
-      split at h
-      · obtain rfl := Except.ok.inj h; exact SameStaking.refl L
-      · split at h
-        · obtain rfl := Except.ok.inj h; exact SameStaking.refl L
-        · split at h
-          · obtain rfl := Except.ok.inj h; exact SameStaking.refl L
-          · unfold mintToAccount at h
-            split at h
-            · obtain rfl := Except.ok.inj h; exact SameStaking.refl L
-            · have s1 : SameStaking L (addToTotal L (x + fee - accGet L sender)) := ⟨rfl, rfl, rfl, rfl, rfl, rfl, rfl, ⟨rfl, rfl, rfl, rfl⟩⟩
-              exact s1.trans (sameStaking_accountAdd h)
+    · exact sameStaking_faucetTopUp h
+  | sendVesting s d x st cl en =>
+    simp only [txFaucet] at h
+    split at h
+    · exact absurd h (by intro h; cases h)
+    · exact sameStaking_faucetTopUp h
   | stake | editStake | unstake | pause | unpause | daoTransfer | subsidy | changeParameter =>
     simp only [txFaucet] at h; obtain rfl := Except.ok.inj h; exact SameStaking.refl L
 
@@ -54,6 +67,11 @@ theorem handleMessage_inv {L L' : Ledger} {sender : Addr} {msg : Msg} (hi : InvS
     simp only [handleMessage, handleSend] at h
     obtain ⟨L1, h1, h2⟩ := bind_ok h
     exact hs.of_sameStaking ((sameStaking_accountSub h1).trans (sameStaking_accountAdd h2))
+  | sendVesting s d x st cl en =>
+    simp only [handleMessage, handleSendVesting] at h
+    obtain ⟨_, _, h⟩ := bind_ok h
+    obtain ⟨L1, h1, h2⟩ := bind_ok h
+    exact hs.of_sameStaking ((sameStaking_accountSub h1).trans (sameStaking_accountAddWithVesting h2))
   | stake a x cs dl c o => exact handleStake_inv' hs h
   | editStake a x cs c o => exact handleEditStake_inv' hi hs h
   | unstake a => exact handleUnstake_inv hs ⟨hh.unstaking, hh.delegateUnstaking⟩ h
@@ -101,9 +119,14 @@ theorem applyTx_inv {L L' : Ledger} {sender : Addr} {fee : Nat} {msg : Msg} (hi 
               have ss1 := sameStaking_txFaucet h1
               have ss2 := ss1.trans (sameStaking_deductFees h2)
               -- the supply identity just before the handler (as in C04)
-              have st1 : Step (match msg with | .send _ _ amount => faucetMint L sender (amount + fee) | _ => 0) 0 L L1 := by
+              have st1 : Step (match msg with | .send _ _ amount => faucetMint L sender (amount + fee) | .sendVesting _ _ amount _ _ _ => faucetMint L sender (amount + fee) | _ => 0) 0 L L1 := by
                 cases msg with
                 | send s d x =>
+                  simp only [txFaucet] at h1
+                  split at h1
+                  · exact absurd h1 (by intro h; cases h)
+                  · exact faucetTopUp_mints (by simpa [txMint] using hx) h1
+                | sendVesting s d x st cl en =>
                   simp only [txFaucet] at h1
                   split at h1
                   · exact absurd h1 (by intro h; cases h)
